@@ -107,9 +107,29 @@ static void jacobian_case(Toks& tk, Out& out, std::size_t ncells, std::size_t ns
     out.i((long long)e.second);
   }
   // the matrix: BuildJacobian itself when there are no extra elements, the same builder calls otherwise
+  // the matrix object first holds another structure (full, one more block) and is then assigned the Jacobian's:
+  // a re-shaped matrix is as good as a freshly built one
   SM jac;
+  {
+    auto fb = SM::Create(nspec).SetNumberOfBlocks(ncells + 1);
+    for (std::size_t i = 0; i < nspec; ++i)
+      for (std::size_t j = 0; j < nspec; ++j)
+        fb = fb.WithElement(i, j);
+    jac = SM(fb);
+  }
   if (extra.empty())
-    jac = micm::BuildJacobian<SM>(nz, ncells, nspec);
+  {
+    auto builder = SM::Create(nspec).SetNumberOfBlocks(ncells);
+    for (auto& e : nz)
+      builder = builder.WithElement(e.first, e.second);
+    for (std::size_t i = 0; i < nspec; ++i)
+      builder = builder.WithElement(i, i);
+    jac = builder;   // assignment from a builder onto the existing matrix
+    // BuildJacobian itself must give the same structure
+    SM built = micm::BuildJacobian<SM>(nz, ncells, nspec);
+    if (built.AsVector().size() != jac.AsVector().size())
+      out.tok("ORACLE_BUILD_JACOBIAN_STRUCTURE_DIFFERS");
+  }
   else
   {
     auto builder = SM::Create(nspec).SetNumberOfBlocks(ncells);
